@@ -814,6 +814,25 @@ pub fn set_speed_run_opt(ctx: &mut Ctx, rng: &mut Rng, interval: Option<usize>, 
         crate::mon::path::check_speed_profile(ctx, &b.net, &b.route, &tp, &path, "TrainSimBuilder::make_set_speed_train_sim");
         return;
     }
+    if ctx.prop == "C07" && rng.chance(0.3) {
+        // the resistance model assembled by hand through its public constructors on the path as extended, for the
+        // train where it stands (the builder assembles it on an empty path and lets the first step catch up)
+        use altrios_core::train::kind::{aerodynamic, bearing, davis_b, path_res, rolling};
+        use altrios_core::train::method;
+        if let Some(rc) = res_coeffs_from_json(&serde_json::to_value(&train_res).unwrap_or(json!(null))) {
+            if let (Ok(g), Ok(c)) = (path_res::Strap::new(path.grades(), &sim.state), path_res::Strap::new(path.curves(), &sim.state)) {
+                sim.train_res = TrainRes::Strap(method::Strap::new(
+                    bearing::Basic::new(uc::N * rc.bearing),
+                    rolling::Basic::new(uc::R * rc.rolling),
+                    davis_b::Basic::new(uc::SPM * rc.davis_b),
+                    aerodynamic::Basic::new(uc::M2 * rc.cd_area),
+                    g,
+                    c,
+                ));
+                ctx.count("obs.set_speed_runs_with_the_resistance_model_assembled_on_the_extended_path");
+            }
+        }
+    }
     let state0 = sim.state;
     let r = panics::guard(AssertUnwindSafe(|| sim.walk()));
     let steps_done = sim.state.i - 1;
